@@ -1,7 +1,7 @@
 (* Model of src/cards/five.rs (evaluation core), src/cards/six.rs, src/cards/seven.rs and the
    HandRanker trait (src/cards/mod.rs), plus evaluate::* of src/lib.rs.
    [chk] = overflow checks on (debug profile) / off (release profile). *)
-From CKC Require Import Base.Prelude Model.Card Model.Hands.
+From CKC Require Import Base.Prelude Base.SortN Model.Card Model.Hands.
 From CKC Require Import Gen.Consts Gen.Tables Gen.Decks.
 Open Scope N_scope.
 
